@@ -4,7 +4,7 @@ Model: coq/Model/Negotiate.v; theorems: coq/Props/C05.v."""
 import re, threading, time
 import xml.etree.ElementTree as ET
 ID = 'C05'
-COQ_ROOTS = ['Props/C05.v']
+COQ_ROOTS = ['Props/C05.v', 'GenProps/Caps_consts.v', 'GenProps/Negotiate_consts.v', 'GenProps/Writer_consts.v']
 RULE = ('A case is (profile of the 14, user capabilities, server capability list from a grammar: base 1.0/1.1 present/absent in '
         'either URN form, with parameters/extra segments, look-alikes, padding, duplicates; qualified or unqualified server hello; '
         'session-id; order of "server hello processed" vs "client hello written" forced through the _send_ready oracle: '
